@@ -482,6 +482,8 @@ class BuiltinsMixin:
                 return len(v.fields["items"])
             if v.tag in ("dict_keys", "dict_values", "dict_items"):
                 return self.len_(v.fields["d"])
+            if v.tag == "symmap_keys":
+                return self.len_(v.fields["m"])
             if v.tag == "range":
                 a = v.fields["args"]
                 if all(isinstance(x, int) for x in a):
@@ -490,8 +492,11 @@ class BuiltinsMixin:
             f, _ = v.cls.lookup("__len__")
             if f is not None:
                 return self.call(self.bind(f, v), [], {})
-        if isinstance(v, SymMap):
-            raise Unsupported("len of symbolic map")
+        if isinstance(v, (SymMap, SymSet)) or (isinstance(v, Obj) and v.tag == "symmap_keys"):
+            has = v.fields["m"].has if isinstance(v, Obj) else v.has
+            card = z3.Function(f"card[{has.sort()}]", has.sort(), z3.IntSort())
+            self.st.assume(card(has) >= 0)
+            return SV(card(has), "int")
         self.raise_py("TypeError", f"object of type {pyclass_kind(v)} has no len()")
 
     # ------------------------------------------------------------------ items
@@ -533,6 +538,8 @@ class BuiltinsMixin:
             return o[self.norm_index(i, len(o))]
         if pyclass_kind(o) == "str":
             return self.str_getitem(o, i)
+        if pyclass_kind(o) == "bytes":
+            return self.bytes_getitem(o, i)
         if isinstance(o, SymSeq):
             from . import seqmodel
             return seqmodel.getitem(self, o, i)
@@ -593,6 +600,24 @@ class BuiltinsMixin:
             self.raise_py("IndexError", "string index out of range")
         zi = z3.If(zi < 0, zi + n, zi)
         return SV(z3.SubString(z, zi, 1), "str")
+
+    def bytes_getitem(self, o, i):
+        from .filemodel import bslice, bz
+        z = bz(o)
+        n = blen(z)
+        if isinstance(i, slice):
+            if i.step is not None:
+                raise Unsupported("bytes slice step")
+
+            def clamp(x, default):
+                if x is None:
+                    return default
+                zx = to_z3(x, "int")
+                return z3.If(zx < 0, z3.If(zx + n < 0, 0, zx + n), z3.If(zx > n, n, zx))
+            lo = clamp(i.start, z3.IntVal(0))
+            hi = clamp(i.stop, n)
+            return SV(bslice(z, lo, z3.If(hi > lo, hi - lo, 0)), "bytes")
+        raise Unsupported("indexing a single byte of symbolic bytes")
 
     def setitem(self, o, i, v):
         if isinstance(o, ListV):
